@@ -572,7 +572,7 @@ def run_forward(c, ctx):
     if "P" in kw or "T" in kw:
         d = norm([a_ - b_ for a_, b_ in zip(pvec(rp)[:3], pvec(rc)[:3])])
         dv = norm([a_ - b_ for a_, b_ in zip(pvec(rp)[3:], pvec(rc)[3:])])
-        if d > tol_pos or dv > tol_vel:
+        if d > 2 * tol_pos or dv > 2 * tol_vel:       # each front end is within the tolerance of the reference
             raise Violation("front ends differ beyond rounding for P/T input: |dr|=%.3e |dv|=%.3e" % (d, dv), kw=kw)
     elif bits(rp) != bits(rc):
         raise Violation("Python and C front ends build different particles from the same arguments",
